@@ -227,6 +227,10 @@ func runCheck(repo, root, prop, tier string, seed int) *CheckResult {
 		}
 		cnt := 0
 		for _, o := range e.obls {
+			// an obligation is decided by the check of every property in its label; unlabelled ones (supporting
+			// postconditions, invariants, frames, call-site preconditions) by the check of every property the function
+			// carries a clause for; the safety sweeps (C13, C19) take every obligation of every function in their
+			// packages, because absence of panics rests on all of them (callers assume callees' postconditions)
 			take := hasProp(o.Props, prop)
 			if !take && hasP {
 				switch o.Kind {
@@ -234,7 +238,12 @@ func runCheck(repo, root, prop, tier string, seed int) *CheckResult {
 					take = true
 				case "requires":
 					take = !hasProp(o.Props, "C13") && !hasProp(o.Props, "C19")
+				case "ensures", "proves":
+					take = len(o.Props) == 0
 				}
+			}
+			if !take && isSafetyProp && hasProp(e.safetyProps, prop) {
+				take = true
 			}
 			if take {
 				obls = append(obls, o)
